@@ -122,6 +122,9 @@ class SemanticPointer(Fixed):
         if isinstance(other, SemanticPointer):
             other_expr_tree = other._expr_tree
         else:
+            if isinstance(other, (np.ndarray, np.generic)) and np.ndim(other) == 0:
+                # str of a lower-precision NumPy scalar is not its exact value
+                other = other.item()
             other_expr_tree = Leaf(str(other))
         self_expr_tree = self._expr_tree
         if self_expr_tree and other_expr_tree:
